@@ -41,6 +41,7 @@ def gen(rng, tier):
         out.append(c)
     c = B.gen(rng)
     c['nt'] = 2
+    c['tperm'] = [0, 1]
     c['blocks'] = c['blocks'][:1]
     c['data'] = [[c['data'][0][0]], [c['data'][0][0]]]
     c['drop_line'] = False
@@ -58,8 +59,7 @@ def lean_file(c):
         return bs.hex()
     steps = []
     for t in range(c['nt']):
-        tau0 = c['tau0'] + t * c['dtau']
-        tau1 = tau0 + c['dtau']
+        tau0, tau1 = B.taus(c, t)
         bl = []
         for bi, b in enumerate(c['blocks']):
             h1 = c['modelname'].encode().ljust(20) + struct.pack('>ffii', c['res'][0], c['res'][1], c['halfpolar'], c['center180'])
@@ -214,7 +214,7 @@ def oracle(case, res):
         if got != exp:
             k = next(i for i, (x, y) in enumerate(zip(got, exp)) if x != y)
             return 'scaled value %d of %s is %08x, raw*scale(%g) is %08x' % (k, v['key'], got[k], scale, exp[k])
-    want0 = [case['tau0'] + t * case['dtau'] for t in range(case['nt'])]
+    want0 = [B.taus(case, t)[0] for t in range(case['nt'])]
     if res['raw']['tau0'] != want0 or res['raw']['tau1'] != [x + case['dtau'] for x in want0]:
         return 'tau0/tau1 %s %s, written %s' % (res['raw']['tau0'], res['raw']['tau1'], want0)
     if 'err' in res['bpch2']:
